@@ -7,7 +7,7 @@ CONSTANTS
   KF_ReaderByteCountIgnoresPartial = FALSE
   MaxLines = 4
   Bodies <- BodiesMX
-  CtxMax = 1
+  CtxMax = 2
   Terms = {"lf", "crlf"}
   Strats = {"reader", "slice"}
   Paths = {"slow", "fast", "cand"}
